@@ -33,6 +33,13 @@ def scenarios(quick):
             fns = [[fn(1, "R0", "E2", True)] * 2, [fn(2, "R0", "E1", True)] * 2, [fn(2, "R0", "E1", True)] * 2, [fn(1, "R1", None, True)] * 2]
             out.append(scenario(st, fns, [start(1, 0), start(2, 3), start(3, 6), start(4, 9)]))
             out.append(scenario(st, fns, [start(1, 0), start(2, 3), start(3, 3), start(4, 7, True)]))
+    # the standalone Open / HalfOpen / Close while trials are in flight: a call that changes nothing (already in that state)
+    # must not hand out permits again; a forced transition abandons the trials in flight
+    for c in (brk(1, 1, 3, sthr=2, scap=2), brk(1, 1, 3)):
+        for op in ("CbHalfOpen", "CbOpen", "CbClose"):
+            for at in (5, 6):
+                fns = [[fn(1, "R0", "E1", True)] * 2, [fn(3, "R1", None, True)] * 2, [fn(3, "R1", None, True)] * 2, [fn(1, "R1", None, True)] * 2, [fn(1, "R0", "E1", True)] * 2]
+                out.append(scenario([cb("c", c)], fns, [start(1, 0), start(2, 4), start(3, 5), env(op, at, id="c"), start(4, 6, True), start(5, 9)]))
     return out
 
 
@@ -54,7 +61,7 @@ def run(ctx):
     tmc.model_check(ctx, "cb", model_scenarios(), ["MC_NoStuckThread", "MC_AllReturn", "MC_C04", "MC_TrialPermits"])
     scs = scenarios(ctx.tier == "quick")
     if ctx.tier == "quick":      # several concurrent executions make validation expensive: every 6th scenario, offset by the seed
-        scs = scs[ctx.seed % 6::6] + scs[-12:]
+        scs = scs[ctx.seed % 6::6] + scs[-24:]
     p_c07.run_family(ctx, "cb", scs, props=("C04",))
     return vlib.finish(ctx, rule="4 breaker configurations (thresholds 1-2, success thresholds, delay 2-3) x 4 placements (alone, under retry, under a timeout that fires, under fallback) x 4 executions "
                        "(sync/async) with staggered starts, durations and success/failure patterns x optional cancellation; traces validated by TLC; open/half-open predicates on the trace; state and remaining "
